@@ -37,6 +37,15 @@ def item():
     return st.one_of(pr, pr, pr, ctl)
 
 
+class TtyFile(io.StringIO):
+    def __init__(self, tty):
+        super().__init__()
+        self._tty = bool(tty)
+
+    def isatty(self):
+        return self._tty
+
+
 class Raw:
     def __init__(self, segs):
         self.segs = segs
@@ -55,10 +64,10 @@ class Stream(Part):
 
     def strategy(self, tier):
         return st.builds(
-            lambda items, a, b, nc, term, lw: {"items": items, "systems": [a, b], "no_color": nc, "terminal": term, "legacy": lw},
+            lambda items, a, b, nc, term, lw, rec: {"items": items, "systems": [a, b], "no_color": nc, "terminal": term, "legacy": lw, "record": rec},
             st.lists(item(), min_size=1, max_size=5),
             st.sampled_from(SYSTEMS), st.sampled_from(SYSTEMS),
-            st.sampled_from([False, False, False, True]), st.sampled_from([True, True, False]), st.sampled_from([False, False, False, True]),
+            st.sampled_from([False, False, False, True]), st.sampled_from([True, True, False, [1, 0], [0, 1], [1, 1], [0, 0]]), st.sampled_from([False, False, False, True]), st.sampled_from([False, False, True]),
         )
 
     def check(self, spec, ctx):
@@ -94,10 +103,22 @@ class Stream(Part):
         if has_link:
             ctx.cls("link")
         for order, system in enumerate(spec["systems"]):
-            f = io.StringIO()
-            con = sut(Console, file=f, color_system=system, force_terminal=spec["terminal"], no_color=spec["no_color"], legacy_windows=spec["legacy"], width=1000, _environ={})
+            mode = spec["terminal"]
+            if isinstance(mode, bool):
+                files, force, terms = [io.StringIO()], mode, [mode]
+            else:
+                # the console finds out by itself whether its file is a terminal, and the file is replaced half-way (console.file = ...)
+                files, force, terms = [TtyFile(mode[0]), TtyFile(mode[1])], None, [bool(mode[0]), bool(mode[1])]
+                ctx.cls("file-replaced")
+            f = files[0]
+            con = sut(Console, file=f, color_system=system, force_terminal=force, no_color=spec["no_color"], legacy_windows=spec["legacy"], width=1000, record=spec.get("record", False), _environ={})
             expected = []  # ("ch", c, attrs, fg, bg, link) | ("ctl", text)
-            for it, segs in zip(spec["items"], built):
+            term_now = terms[0]
+            switch_at = (len(spec["items"]) + 1) // 2 if len(files) == 2 else None
+            for idx, (it, segs) in enumerate(zip(spec["items"], built)):
+                if idx == switch_at:
+                    con.file = files[1]
+                    term_now = terms[1]
                 if it[0] == "ctl":
                     kind = it[1]
                     if kind == "bell":
@@ -111,11 +132,11 @@ class Stream(Part):
                         text = "\x1b[2J"
                     elif kind in ("hide_cursor", "show_cursor"):
                         sut(con.show_cursor, kind == "show_cursor")
-                        text = ("\x1b[?25h" if kind == "show_cursor" else "\x1b[?25l") if (spec["terminal"] and not spec["legacy"]) else ""
+                        text = ("\x1b[?25h" if kind == "show_cursor" else "\x1b[?25l") if (term_now and not spec["legacy"]) else ""
                     else:
                         sut(con.control, "\x1b[1A\x1b[2K")
                         text = "\x1b[1A\x1b[2K"
-                    if spec["terminal"] and text:
+                    if term_now and text:
                         expected.append(("ctlseq", text))
                     continue
                 route = it[2]
@@ -159,7 +180,16 @@ class Stream(Part):
                         st_ = (attrs, fg, bg, link)
                     for c in t:
                         expected.append(("ch", c) + st_)
-            out = f.getvalue()
+            out = "".join(x.getvalue() for x in files)
+            for x, is_term in zip(files, terms):
+                if not is_term:
+                    try:
+                        ev_x, _ = SGR.interpret(x.getvalue())
+                    except SGR.BadStream:
+                        ev_x = []
+                    if any(e[0] == "ctl" for e in ev_x):
+                        ctx.violation("not-terminal", "C03/notterminal/control", "control codes written to a file that is not a terminal: %r" % ([e for e in ev_x if e[0] == "ctl"][:3],))
+                        return
             label = "%s(%s)" % (system, "first" if order == 0 else "after-" + str(spec["systems"][0]))
             # stream-level clauses
             if system is None and "\x1b" in out.replace("\x1b[2J", "").replace("\x1b[H", "").replace("\x1b[?25h", "").replace("\x1b[?25l", "").replace("\x1b[1A\x1b[2K", ""):
@@ -169,9 +199,6 @@ class Stream(Part):
                 events, final = SGR.interpret(out)
             except SGR.BadStream as e:
                 ctx.violation("stream", "C03/stream/malformed", "%s: %s in %r" % (label, e, out[:300]))
-                return
-            if not spec["terminal"] and any(e[0] == "ctl" for e in events):
-                ctx.violation("not-terminal", "C03/notterminal/control", "%s: control codes written to a non-terminal: %r" % (label, [e for e in events if e[0] == "ctl"][:3]))
                 return
             # flatten expected control sequences into the interpreter's event granularity
             exp = []
